@@ -32,17 +32,23 @@ REQUIRED = [
     'Ems.C16.marshal_flags_matter',
 ]
 RULE = ('base datasets of all five convention classes from harness/gen/datasets.py (in memory and after a netCDF '
-        'round trip, geometry variables enriched with string / int / float / numpy scalar / numpy array attributes); '
-        'per base every kind of non-geometry edit (data variable added on grid / time / scalar / new dimension, one '
-        'value changed, removed, all removed, attribute, renamed; time steps; time coordinate; global attribute '
-        'add / change / remove; variable order; dimension renames; coordinate status; dask chunks; deep copy) and '
-        'per geometry variable every kind of single geometry edit (one value; dtype by astype / by reinterpreting '
-        'the same bytes / in place; shape with the same bytes: append 1, prepend 1, reversed, flattened, split; '
-        'rename incl. non-ASCII; attribute add / change / remove; convention class). Every case is rebuilt from its '
-        'recipe; the byte stream fed to the hash object by the real make_cache_key is recorded and compared with '
-        'the model\'s stream, inventory and first-difference position; keys are recomputed in fresh interpreters '
-        'with different PYTHONHASHSEEDs. A case is non-trivial when it is an edit (not a base); distinct = distinct '
-        '(convention, netCDF?, edit kind, role of the edited variable, edit parameters).')
+        'round trip, geometry variables enriched with string / int / float / numpy scalar / numpy array attributes; '
+        'UGRID with every subset of optional connectivity, size-two dimension called Two or not); '
+        'per base every kind of non-geometry edit (data variable added on grid / time / scalar / new dimension / '
+        'as first variable on a new leading dimension, one value changed, removed, all removed, attribute, renamed; '
+        'time steps; time coordinate; global attribute add / change / remove; variable order; dimension renames; '
+        'coordinate status; dask chunks; deep copy) and per geometry variable every kind of single geometry edit '
+        '(one value; dtype by astype / by reinterpreting the same bytes / in place; shape with the same bytes: '
+        'append 1, prepend 1, reversed, flattened, split; rename incl. non-ASCII; attribute add / change / remove; '
+        'convention: subclass in another module, same module other name, same name other module, ShocSimple as CFGrid2D). '
+        'Every case is rebuilt from its recipe; the byte stream fed to the hash object by the real make_cache_key is '
+        'recorded and compared with the model\'s stream, inventory, first-difference position and value position; '
+        'hash_int / hash_string / hash_attributes are called directly on boundary and random values; unusual '
+        'configurations exercise the inventories\' error branches; equal-geometry probes (fresh attribute objects, '
+        'netCDF reload, pickle, a live shallow copy, one file vs open_mfdataset) look for keys that depend on more '
+        'than the geometry; keys are recomputed in fresh interpreters with different PYTHONHASHSEEDs. '
+        'A case is non-trivial when it is an edit, a probe or an out-of-range / non-ASCII helper input; distinct = '
+        'distinct (convention, netCDF?, edit kind, role of the edited variable, edit parameters).')
 TRUSTED = [
     'hashlib.blake2b is collision-free on the streams considered (parameter H of the theorems, assumed injective)',
     'marshal.dumps(attrs, 4) is an opaque serialiser: the model receives its output as a byte blob; that equal '
@@ -57,6 +63,8 @@ ASSUMPTIONS = [
     'attributes, standard_name, units, axis) are str',
     'the optional UGRID connectivity variables generated are valid by construction (the dimension checks of '
     'Mesh2DTopology.has_valid_* are an abstract predicate of the model, C10 owns them)',
+    'UGRID node / face coordinates are generated as data variables, never as xarray coordinates (finding F8 of '
+    'C06 / C10: Mesh2DTopology looks them up in data_vars only)',
     'attribute ORDER is part of the key (marshal serialises the dict in order); reordering attributes is outside '
     'the property\'s quantifier and is not judged by the oracle (only counted)',
 ]
@@ -668,6 +676,25 @@ def run(ctx) -> None:
                                 f"{probe}: names, dtypes, shapes, values and attributes are equal, keys differ "
                                 f"{res['key_a'][:16]}… != {res['key_b'][:16]}… (attribute bytes differ for {res['flags']})")
 
+    # one mesh whose connectivity is stored as integers with a fill value: decoded to float64, so that the dtype of
+    # the encoding (kept by open_dataset, lost by open_mfdataset) and of the values differ
+    for _ in range(ctx.budget(1, 4)):
+        r = G.random_recipe(rng, 'ugrid', ctx.tier, coords_as='vars', fill='attr', face_coords=None, max_w=2, max_h=2,
+                            tables=rng.choice([[], ['edge_node'], ['face_face']]), concave=True, midpoints=True)
+        mcase = {'recipe': r, 'netcdf': False, 'enrich': True, 'stabilise': True, 'edits': []}
+        try:
+            res = run_probe(mcase, 'mfdataset')
+        except Exception as ex:  # noqa
+            ctx.count(f'n/a:probe:mfdataset:{type(ex).__name__}')
+            continue
+        ctx.count('probe:mfdataset:int-with-fill')
+        ctx.evaluated()
+        if res['same_geometry'] and res['key_a'] != res['key_b']:
+            ctx.oracle_fail(SIG_ENC if res.get('encoding_dtype_differs') else 'cache-key-equal-geometry-different-key',
+                            {'probe': 'mfdataset', 'case': res['case']},
+                            f"the same data opened from one file and from two files (open_mfdataset): names, dtypes, shapes, "
+                            f"values and attributes are equal, keys differ {res['key_a'][:16]}… != {res['key_b'][:16]}…; "
+                            f"encoding['dtype'] (single, multi-file) = {res.get('detail')}")
     items += marshal_items(ctx, rng, raw_attr_dicts)
 
     # ---- datasets × edits -------------------------------------------------------------------
@@ -916,8 +943,10 @@ def run_mfdataset_probe(bcase: dict) -> dict:
         st = json.loads(json.dumps(state))
         K.make_convention(d, st)
         out.append((make_cache_key(d), geometry_content(d, st),
-                    {n: getattr(d.variables[n].encoding.get('dtype'), 'name', None) for n in st['expected']}))
-    enc_differs = [n for n in out[0][2] if out[0][2][n] != out[1][2][n]]
+                    {n: (getattr(d.variables[n].encoding.get('dtype'), 'name', None), d.variables[n].dtype.name)
+                     for n in st['expected']}))
+    # variables for which "encoding dtype, else dtype of the values" names two different types in the two datasets
+    enc_differs = [n for n in out[0][2] if (out[0][2][n][0] or out[0][2][n][1]) != (out[1][2][n][0] or out[1][2][n][1])]
     return {'case': case, 'same_geometry': out[0][1] == out[1][1], 'key_a': out[0][0], 'key_b': out[1][0],
             'flags': [], 'encoding_dtype_differs': enc_differs,
             'detail': {n: (out[0][2][n], out[1][2][n]) for n in enc_differs}}
@@ -935,7 +964,8 @@ def run_one(ctx, inp: dict) -> dict:
         base = dict(inp['case'], edits=[e for e in inp['case'].get('edits', []) if e.get('op') != inp['probe']])
         res = run_probe(base, inp['probe'])
         out['impl'] = (f"same geometry content: {res.get('same_geometry')}; key A = {res.get('key_a')}; "
-                       f"key B = {res.get('key_b')}; attribute bytes differ for {res.get('flags')}")
+                       f"key B = {res.get('key_b')}; attribute bytes differ for {res.get('flags')}"
+                       + (f"; encoding dtype / values dtype (A, B) = {res.get('detail')}" if res.get('detail') else ''))
         out['verdict'] = 'VIOLATES' if res.get('same_geometry') and res.get('key_a') != res.get('key_b') else 'holds'
         return out
     if 'direct' in inp:
